@@ -33,8 +33,8 @@ PLANS["C08"] = {
     "thorough": [J("writers", "p=2,f=2,s=1", 900), J("writers2", "p=3,f=1,s=1,t=1", 600), J("race-client", "thorough", 300, test="TestE3", shards=1, race=True)],
 }
 PLANS["C10"] = {
-    "quick": [J("wedge", "p=1,f=1", 45), J("wedge", "f=2", 45), J("wedgeburst", "p=1,f=1", 45)],
-    "thorough": [J("wedge", "p=2,f=3,s=2", 900)],
+    "quick": [J("wedge", "p=1,f=1", 45), J("wedge", "f=2", 45), J("wedgeburst", "p=1,f=1", 45), J("wedgeblock", "f=2", 60)],
+    "thorough": [J("wedge", "p=2,f=3,s=2", 900), J("wedgeburst", "p=2,f=2,s=1", 400), J("wedgeblock", "p=1,f=2,s=1", 400)],
 }
 PLANS["C11"] = {
     "quick": [J("reqresp", "p=1,f=1,sel=1", 60), J("reqresp", "f=1,s=2", 40), J("hostile", "f=1", 40), J("c11-idwrap", "quick", 120, test="TestE3", shards=1)],
